@@ -1,7 +1,7 @@
 #!/usr/bin/env python3
 """Applies each seeded change under /verif/seeded/<name>/patch.diff to /repo, runs the quick check of its property,
 undoes the change, and writes /verif/seeded/results.json. usage: run_seeded.py [name-substring ...]"""
-import json,os,subprocess,sys,time
+import json,os,subprocess,sys,time,shutil,tempfile
 root='/verif/seeded'
 sel=sys.argv[1:]
 res={}
